@@ -17,7 +17,13 @@ type LoadError struct {
 	Kind    ErrorKind
 	Path    string
 	Message string
-	Range   ast.Range
+	// Range is the range of the directive that names Path, in File.
+	Range ast.Range
+	// File is the file that contains that directive.
+	File string
+	// Top is the range of the directive of the primary file through which File was reached
+	// (equal to Range when File is the primary file).
+	Top ast.Range
 }
 
 func (e LoadError) Error() string {
